@@ -30,6 +30,8 @@ type Obligation struct {
 	gen     *FnGen
 	Bounded bool
 	SrcLine string
+	// ModelQuery: quantifier-free weakening of the query that has a model (candidate counterexample for replay)
+	ModelQuery string
 	Tags    map[int]bool // blocks whose lines are relevant (ancestors of the obligation's block); nil = all
 }
 
@@ -567,8 +569,14 @@ func (g *FnGen) callsOnly() {
 	}
 }
 
+func (g *FnGen) isInit() bool {
+	return g.fn.Name() == "init" || strings.HasPrefix(g.fn.Name(), "init#")
+}
+
 func (g *FnGen) assumeGlobals(st *State, reach string) {
-	if g.key == "tree.init" || g.key == "mux.init" || g.key == "types.init" || g.key == "syntax.init" {
+	// package initialisers establish the global invariants (checked at their exit); functions they call
+	// before that must not rely on them (contract flag noglobals)
+	if g.isInit() || (g.con != nil && g.con.Flags["noglobals"]) {
 		return
 	}
 	for _, c := range g.w.globals {
@@ -1580,6 +1588,15 @@ func (g *FnGen) ret(in *ssa.Return, st *State, reach string) {
 	}
 	g.retSites++
 	g.checkPost(st, reach, rs, in.Pos(), "ensures", "post")
+	if g.fn.Name() == "init" && g.fn.Synthetic != "" {
+		for _, c := range g.w.globals {
+			if g.w.globalPkg[c] != g.pkg {
+				continue
+			}
+			env := g.envAt(st, st, nil)
+			g.oblige("ginit", c.Label, c.Props, reach, g.evalBool(env, c), c.Src, in.Pos())
+		}
+	}
 }
 
 func (g *FnGen) checkPost(st *State, reach string, rs []SVal, pos token.Pos, kind, okind string) {
